@@ -1,6 +1,7 @@
 import PycsepVerif.Proto
 import PycsepVerif.RealOps
 import PycsepVerif.Model.Perm
+import PycsepVerif.Model.FloatSum
 /-!
   Driver ops of C20 (all prefixed `c20_`). Events travel as two parallel lists `cells bins`; a family of catalogs as
   `cells;cells;...` and `bins;bins;...` (`-` = a catalog without events); floats as IEEE bit patterns.
@@ -97,5 +98,10 @@ def handle : List String → Option String
             (points.map (fun p => findLocation boxes p.1 p.2))
         | _, _ => "bad-op"
       | _, _ => "bad-op")
+  -- c20_fsum <terms as exact rationals> : "<sequential float sum> <numpy pairwise float sum>" (exact rationals, Soft64)
+  | ["c20_fsum", xs] => some (
+      match parseList? parseRat? xs with
+      | some xs => s!"{showRat (FloatSum.seqSum xs)} {showRat (FloatSum.pairwiseSum 64 xs)}"
+      | none => "bad-op")
   | _ => none
 end Drive.C20
